@@ -385,8 +385,9 @@ func checkMain(args []string) int {
 	items := discover(id, c.extra)
 	if *only != "" {
 		var f []Item
+		re := regexp.MustCompile(*only)
 		for _, it := range items {
-			if strings.Contains(it.Fn, *only) {
+			if re.MatchString(it.Fn) {
 				f = append(f, it)
 			}
 		}
